@@ -4,7 +4,7 @@
 -- expression against the real evaluator / CompositionPoly / verifier pieces) instantiated with an
 -- arbitrary Mathlib field; trace lengths, widths, constraint sets and assertion sets are unbounded.
 import Mathlib.Algebra.Field.ZMod
-import WinterProofs.Lemmas.C17Poly
+import WinterProofs.Lemmas.C17Trace
 
 namespace WinterProofs.C17
 open Model.Divisor Model.Composition WinterProofs.C16L WinterProofs.C17L Polynomial
@@ -367,21 +367,14 @@ def CommittedEqDefinition (root : ℕ → Option F) (beq : F → F → Bool) (ai
       some (recombine (fieldOps F root) air.n x (evaluateAt (fieldOps F root) cols x))
         = defAt (fieldOps F root) air P mainPolys auxPolys rands tco bco x
 
-/-- **PARTIAL (named hypotheses).**  Proved here: interpolation over the constraint evaluation coset
-    (the model's inverse DFT with offset inverts evaluation), uniqueness of a polynomial of degree below
-    the domain size through its values on the coset, the column split and that no coefficient is lost in
-    the `k` columns.  Hypotheses that remain:
-    * `hrows` — the composition trace holds the definition at every point of the constraint evaluation
-      domain.  Its ingredients are the theorems above (`prover_frames_are_trace_polys`,
-      `periodic_table_get_row`, `boundary_representations_agree`, `acc_column_inverse_index`,
-      `verifier_expression_eq_definition` for the grouping); their assembly through the evaluation table
-      is not machine-checked and is covered by the correspondence run (the driver executes
-      `compositionTrace` and `defAt` on every explicit instance).
-    * `hQ`, `hQdeg` — for a VALID trace the definition is a polynomial `Q` of degree below `n·k`
-      (divisibility of the numerators by the divisors: C16; degrees: `quotient_degree_lt_columns`).
-    Conclusion: the committed columns recombine to `Q` at EVERY field point, hence to the definition
-    wherever the latter is defined. -/
-theorem committed_eq_definition_partial {root : ℕ → Option F}
+/-- **from the interpolation nodes to every field point.**  Proved: interpolation over the constraint
+    evaluation coset (the model's inverse DFT with offset inverts evaluation), uniqueness of a polynomial
+    of degree below the domain size through its values on the coset, the column split, and that no
+    coefficient is lost in the `k` columns.  Given `hrows` (the composition trace holds the definition
+    at every point of the constraint evaluation domain: `composition_trace_holds_definition`) and
+    `hQ`, `hQdeg` (the definition is a polynomial `Q` of degree below `n·k`), the committed columns
+    recombine to `Q` at EVERY field point, hence to the definition wherever the latter is defined. -/
+theorem committed_eq_definition_of_nodes {root : ℕ → Option F}
     (air : Air F) (P : Prep F) (D : Domain F) (mainPolys auxPolys : ℕ → List F) (rands : ℕ → F)
     (tco bco ctr : List F) (cols : List (List F)) (k : ℕ)
     (hDn : D.n = air.n) (hlen : ctr.length = D.ceSize) (hpos : 0 < D.ceSize)
@@ -424,6 +417,88 @@ theorem committed_eq_definition_partial {root : ℕ → Option F}
     rw [← listPoly_coeff, hPc]
     exact coeff_eq_zero_of_natDegree_lt (lt_of_lt_of_le hQdeg hmk)
   exact ⟨main, fun x hx => by rw [main x, hQ x hx]⟩
+
+/-- the instance of the examples as `prep` delivers it -/
+def exP : Prep (ZMod 17) := (prep (fieldOps (ZMod 17) exRoot) exAir).getD ⟨0, 0, [], [], []⟩
+
+theorem exP_spec : prep (fieldOps (ZMod 17) exRoot) exAir = some exP := by
+  have ⟨P, hP⟩ : ∃ P, prep (fieldOps (ZMod 17) exRoot) exAir = some P := ⟨_, rfl⟩
+  unfold exP
+  rw [hP]; rfl
+
+/-- **the composition polynomial trace holds the definition at every point of the constraint
+    evaluation domain.**  `DefaultConstraintEvaluator::evaluate` as modelled — frames read from the
+    trace LDE (`ce blowup ≤ lde blowup`), periodic values from the `PeriodicValueTable`, transition
+    evaluations merged with the main | aux coefficient ranges, boundary constraints through their
+    `SingleValue / SmallPoly / LargePoly` representations (any switching threshold), prover-side groups
+    with auxiliary groups merged into main groups of equal divisor, `combine` dividing every column by
+    its divisor through `get_inv_evaluation`'s periodic table of inverses — yields, at step `i`, exactly
+    `C(x_i)`.  `TraceOK` collects the coherence of the domains with the instance. -/
+theorem composition_trace_holds_definition {root : ℕ → Option F} (beq : F → F → Bool)
+    (hbeq : ∀ a b, beq a b = true → a = b) (air : Air F) (P : Prep F)
+    (hP : prep (fieldOps F root) air = some P) (D : Domain F) (threshold : ℕ)
+    (mainPolys auxPolys : ℕ → List F) (rands : ℕ → F) (tco bco ctr : List F) (hok : TraceOK root air P D)
+    (hlen : air.mainCons.length ≤ tco.length)
+    (h : compositionTrace (fieldOps F root) beq air P D threshold mainPolys auxPolys rands tco bco = some ctr) :
+    ctr.length = D.ceSize ∧ ∀ i (hi : i < ctr.length),
+      defAt (fieldOps F root) air P mainPolys auxPolys rands tco bco (D.ceX (fieldOps F root) i) = some ctr[i] :=
+  composition_trace_eq_definition root beq hbeq air P D threshold mainPolys auxPolys rands tco bco ctr hok
+    (prep_keyDet hP).1 (prep_keyDet hP).2 hlen h
+
+/-- the hypotheses `TraceOK` hold for the example instance over the example domain -/
+example : TraceOK exRoot exAir exP exDomain where
+  hn := rfl
+  hnpos := by decide
+  he := by decide
+  hB := by decide
+  hw := by decide
+  hr := by decide
+  hg := by decide +kernel
+  hwl := by decide
+  hpow := by
+    intro p hp
+    have : p.length = 2 := by revert p; decide +kernel
+    exact ⟨1, this⟩
+  hdvd := by decide +kernel
+  hproot := by decide +kernel
+  hrepr := by
+    intro bc hbc
+    have h : bc.c.poly.length ≠ 0 ∧ bc.c.poly.length ∣ exDomain.ceSize ∧
+        bc.c.offsetElem * exDomain.wce ^ (bc.c.offsetSteps * exDomain.ceBlowup) = 1 ∧
+        bc.c.offsetSteps * exDomain.ceBlowup < exDomain.ceSize := by revert bc; decide +kernel
+    exact ⟨h.1, h.2.1, rfl, by decide, h.2.2.1, h.2.2.2⟩
+  hsteps := by decide +kernel
+  haux := by decide
+
+/-- **PARTIAL (one named hypothesis).**  The committed composition polynomial equals the definition
+    at every field point.  Everything on the code's side is proved (`composition_trace_holds_definition`
+    for the interpolation nodes, interpolation, uniqueness, column split); what remains a hypothesis is
+    the statement about VALID TRACES that `hQ`, `hQdeg` express: the definition is a polynomial `Q` of
+    degree below `n·k` (the numerators are divisible by their divisors: C16; the degrees:
+    `quotient_degree_lt_columns`).  `hoff` says that the evaluation coset does not meet the trace domain
+    (the offset is a generator of the multiplicative group). -/
+theorem committed_eq_definition_partial {root : ℕ → Option F} (beq : F → F → Bool)
+    (hbeq : ∀ a b, beq a b = true → a = b) (air : Air F) (P : Prep F)
+    (hP : prep (fieldOps F root) air = some P) (D : Domain F) (threshold : ℕ)
+    (mainPolys auxPolys : ℕ → List F) (rands : ℕ → F) (tco bco ctr : List F) (cols : List (List F)) (k : ℕ)
+    (hok : TraceOK root air P D) (hlen : air.mainCons.length ≤ tco.length)
+    (hw : IsPrimitiveRoot D.wce D.ceSize) (hroot : root (Nat.log2 D.ceSize) = some D.wce) (ho : D.offset ≠ 0)
+    (htrace : compositionTrace (fieldOps F root) beq air P D threshold mainPolys auxPolys rands tco bco = some ctr)
+    (hcols : compositionPoly (fieldOps F root) D ctr k = some cols) (hk : air.n * k ≤ D.ceSize)
+    (hoff : ∀ i, (D.ceX (fieldOps F root) i) ^ air.n ≠ 1)
+    (Q : F[X]) (hQdeg : Q.natDegree < air.n * k)
+    (hQ : ∀ x, x ^ air.n ≠ 1 →
+      defAt (fieldOps F root) air P mainPolys auxPolys rands tco bco x = some (Q.eval x)) :
+    (∀ x, recombine (fieldOps F root) air.n x (evaluateAt (fieldOps F root) cols x) = Q.eval x) ∧
+    (∀ x, x ^ air.n ≠ 1 →
+      some (recombine (fieldOps F root) air.n x (evaluateAt (fieldOps F root) cols x))
+        = defAt (fieldOps F root) air P mainPolys auxPolys rands tco bco x) := by
+  obtain ⟨hl, hrows⟩ := composition_trace_holds_definition beq hbeq air P hP D threshold mainPolys auxPolys rands
+    tco bco ctr hok hlen htrace
+  have hpos : 0 < D.ceSize := by
+    unfold Domain.ceSize; rw [hok.hn]; exact Nat.mul_pos hok.hnpos hok.hB
+  exact committed_eq_definition_of_nodes air P D mainPolys auxPolys rands tco bco ctr cols k hok.hn hl hpos hw hroot ho
+    hcols hk hoff hrows Q hQdeg hQ
 
 /-- the interpolation hypothesis of the partial theorem is not an assumption: over the example domain
     the model's `interpolate_poly_with_offset` of 16 evaluations returns 16 coefficients that reproduce
